@@ -247,6 +247,13 @@ def _MR(origin, size):
     return ("MR", origin, size)
 
 
+_MB = ("MB",)
+
+
+def _SB(origin, size, cached=1, linker=0):
+    return ("SB", origin, size, cached, linker)
+
+
 def _S(origin, size, cached=1, linker=0):
     return ("S", origin, size, cached, linker)
 
@@ -272,6 +279,11 @@ _GLUE_B += [
     # window spanning several slaves; one unrestricted master
     ([_MR(0x4000, 0x1000), _MR(0x3000, 0x1000), _S(0, 0x3000), _S(None, 0x1000), _MR(0, 0x8000), _M, _S(0x8000, 0x1800)],
      dict(timeout=8)),
+]
+_GLUE_B += [
+    # byte-addressed master and slave ports (add_adapter's addressing conversion) on a 64-bit and a 128-bit bus
+    ([_MB, _M, _S(0, 0x3000), _SB(None, 0x1000), _SB(0x8000, 0x1800), _MB], dict(timeout=8, data_width=64)),
+    ([_M, _MB, _SB(0x10000000, 0x3000), _S(None, 0x1000)], dict(interconnect="crossbar", register=False, data_width=128)),
 ]
 _GLUE_B_THOROUGH = [
     ([_M, _S(0x10000000, 0x5000), _S(0x10008000, 0x2400), _S(None, 0x3000), _S(None, 0x3000)],
@@ -533,6 +545,18 @@ def _glue_scripts(rng, tier):
         ([_MR(0x80000000, 0x100), _S(0x80000000, 0x100)], dict(timeout=8)),       # 1x1, non-zero origin: decoder
         ([_MR(0, 0x1000), _S(0, 0x100000000)], dict(timeout=8)),                  # 1x1, whole space: point to point
     ]
+    # byte-addressed master / slave ports: bus data width 32/64/128, address width 32/64, shared and crossbar
+    for dw in (32, 64, 128):
+        for aw in (32, 64):
+            if aw == 64 and dw == 32:
+                continue
+            hi = 0x10000000 if aw == 32 else 0x100000000000
+            out.append(([_MB, _M, _S(0, 0x3000), _SB(None, 0x1000), _SB(hi, 0x1800)],
+                        dict(variants[v % len(variants)], data_width=dw, address_width=aw)))
+            v += 1
+            out.append(([_MB, _SB(hi, 0x1000), _S(hi + 0x2000, 0x600), _MB], dict(variants[v % len(variants)], data_width=dw, address_width=aw)))
+            v += 1
+    out.append(([_MB, _SB(0, 1 << 32)], dict(timeout=8, data_width=64)))              # 1x1 whole space: point to point
     for _ in range(14 if tier == "quick" else 150):
         script = [_M if rng.random() < 0.75 else _MR(rng.randrange(0, 16) * 0x1000, rng.choice((0x1000, 0x400, 0x4000)))
                   for _k in range(rng.randint(1, 3))]
@@ -557,7 +581,13 @@ def _glue_scripts(rng, tier):
                 placed.append((origin, size))
             op = (_S if rng.random() < 0.85 else _R)(origin, size, 0 if unc else 1, 1 if rng.random() < 0.05 else 0)
             script.insert(rng.randint(0, len(script)) if rng.random() < 0.3 and not has_io else len(script), op)
-        out.append((script, variants[rng.randrange(len(variants))]))
+        kw = dict(variants[rng.randrange(len(variants))])
+        if rng.random() < 0.5:
+            # byte-addressed ports on wider buses (no remapper on a byte port: Remapper + adapter order is C07's subject)
+            kw["data_width"] = rng.choice((32, 64, 128))
+            script = [(_MB if op == _M and rng.random() < 0.5 else
+                       ("SB",) + op[1:] if op[0] == "S" and rng.random() < 0.5 else op) for op in script]
+        out.append((script, kw))
     return out
 
 
@@ -576,11 +606,14 @@ class _SweepEnv:
         w = self.words[k % len(self.words)]
         i = k % n
         parts = []
+        shifts = inst.adr_shifts or [0] * n
         for q in range(n):
+            # a byte-addressed master port drives the byte address (some byte inside the bus word)
+            a = (w << shifts[q]) | (k & ((1 << shifts[q]) - 1))
             if q == i and phase < 2:
-                parts.append(m_req(w, we=k & 1, dat_w=(0xd0 + q) << 8 | (k & 0xff), sel=0xf, tag=q & 3))
+                parts.append(m_req(a, we=k & 1, dat_w=(0xd0 + q) << 8 | (k & 0xff), sel=0xf, tag=q & 3))
             else:
-                parts.append(wblib.m_idle(tag=q & 3, adr=w))
+                parts.append(wblib.m_idle(tag=q & 3, adr=a))
         if phase == 1:
             seen = inst.peek(parts)
             for j in range(m):
@@ -719,6 +752,100 @@ def _remap_cases(ctx):
             if len(dis) >= 3:
                 break
     ctx.cov.add_cases("SoCBusHandler.add_remapper vs remapAdr", len(lines), len(lines), exhaustive=False)
+    return dis
+
+
+def _width_route(bus_dw, m_dw, s_dws, interconnect="shared", address_width=32, words=None):
+    """Ports of other data widths (word addressed): `add_adapter` inserts wishbone.Converter (Down/UpConverter) on the
+    master ("m2s") and slave ("s2m") side.  Model-independent routing oracle on the real netlist: one master, slaves
+    at fixed regions; for every probed byte address A the master holds a full-width write until it is terminated, slaves
+    acknowledge every strobe they see.  Every strobe a slave sees must (a) be at a slave whose region window contains its
+    byte address, (b) overlap the master's own word [A0, A0 + master bytes), (c) be the only slave strobed in that cycle;
+    a region that contains A0 must be strobed, an unmapped A0 must reach nobody.  Returns None or a witness dict."""
+    import sys
+    from litex.soc.integration import soc as S
+    from litex.soc.interconnect import wishbone
+    from netlist import Netlist
+    regions = [(0x0, 0x3000), (0x4000, 0x1000), (0x10000000, 0x1800)][:len(s_dws)]
+    bus = S.SoCBusHandler(standard="wishbone", data_width=bus_dw, address_width=address_width, timeout=24,
+                          interconnect=interconnect, interconnect_register=False)
+    mst = wishbone.Interface(data_width=m_dw, address_width=address_width)
+    slaves = [wishbone.Interface(data_width=d, address_width=address_width) for d in s_dws]
+    stderr = sys.stderr
+    try:
+        bus.add_master("m", mst)
+        for j, (slv, (o, sz)) in enumerate(zip(slaves, regions)):
+            bus.add_slave("s%d" % j, slv, S.SoCRegion(origin=o, size=sz))
+        bus.finalize()
+    finally:
+        sys.stderr = stderr
+    nl = Netlist(bus)
+    mb = m_dw // 8
+    desc = "SoCBusHandler %d-bit %s, master %d-bit, slaves %s-bit at %s" % (
+        bus_dw, interconnect, m_dw, "/".join(map(str, s_dws)), " ".join("%#x+%#x" % r for r in regions))
+    pts = set()
+    for (o, sz) in regions:
+        p2 = 1 << (sz - 1).bit_length()
+        pts |= {o, o + 8, o + sz - mb, o + sz, o + p2 - mb, o + p2, o + 2 * p2, max(0, o - mb)}
+    for A in sorted(words or pts):
+        A0 = A // mb * mb
+        inside = [j for j, (o, sz) in enumerate(regions) if o <= A0 < o + (1 << (sz - 1).bit_length())]
+        nl.set(mst.adr, A0 // mb); nl.set(mst.cyc, 1); nl.set(mst.stb, 1); nl.set(mst.we, 1)
+        nl.set(mst.sel, (1 << mb) - 1); nl.set(mst.dat_w, A0 & ((1 << m_dw) - 1))
+        seen, done = [], False
+        for t in range(60):
+            for slv in slaves:
+                nl.set(slv.ack, 0)
+            nl.settle()
+            now = []
+            for j, slv in enumerate(slaves):
+                if nl.getu(slv.cyc) and nl.getu(slv.stb):
+                    now.append((j, nl.getu(slv.adr) * (s_dws[j] // 8)))
+                    nl.set(slv.ack, 1)
+            nl.settle()
+            seen += now
+            if len(now) > 1:
+                return {"instance": desc, "byte_address": A, "cycle": t, "what": "R10: two slaves strobed at once", "strobes": now}
+            for (j, sb) in now:
+                o, sz = regions[j]
+                if not (o <= sb < o + (1 << (sz - 1).bit_length())):
+                    return {"instance": desc, "byte_address": A, "what": "slave %d strobed at byte %#x outside its region" % (j, sb)}
+                if not (sb < A0 + mb and A0 < sb + s_dws[j] // 8):
+                    return {"instance": desc, "byte_address": A, "what": "slave %d strobed at byte %#x, not part of the master's word at %#x" % (j, sb, A0)}
+            done = bool(nl.getu(mst.ack) or nl.getu(mst.err))
+            nl.tick()
+            if done:
+                break
+        nl.set(mst.cyc, 0); nl.set(mst.stb, 0)
+        for slv in slaves:
+            nl.set(slv.ack, 0)
+        nl.settle(); nl.tick(); nl.settle(); nl.tick()
+        if not done and (inside or seen):       # (an unmapped address never terminates on a crossbar: no bus timeout)
+            return {"instance": desc, "byte_address": A, "what": "request never terminated", "strobes": seen}
+        if inside and not any(j == inside[0] for j, _ in seen):
+            return {"instance": desc, "byte_address": A, "what": "byte address inside slave %d's region reached %r" % (inside[0], seen)}
+        if not inside and seen:
+            return {"instance": desc, "byte_address": A, "what": "unmapped byte address was presented: %r" % (seen,)}
+    return None
+
+
+_WIDTH_GRID = [(32, 64, (32, 32)), (32, 32, (64, 32, 128)), (64, 32, (64, 64)), (64, 64, (32, 128)), (64, 128, (32, 64)),
+               (128, 32, (128, 32)), (128, 64, (64, 128, 32)), (128, 128, (32, 64))]
+
+
+def _width_cases(ctx):
+    dis, n = [], 0
+    grid = [(b, m, s, ("shared", "crossbar")[i % 2]) for i, (b, m, s) in enumerate(_WIDTH_GRID)]
+    if ctx.tier != "quick":
+        grid += [(b, m, s, ("crossbar", "shared")[i % 2]) for i, (b, m, s) in enumerate(_WIDTH_GRID)]
+    for (b, m, s, ic) in grid:
+        w = _width_route(b, m, s, ic)
+        n += 1
+        ctx.cov.count("width_route_bus%d" % b)
+        if w is not None:
+            dis.append(dict(w, kind="monitor:" + w["what"], make={"kind": "width_route", "args": [b, m, list(s), ic]}))
+            break
+    ctx.cov.add_cases("add_adapter data-width converters: routing oracle on the real bus", n * 20, n * 20, exhaustive=False)
     return dis
 
 
@@ -876,6 +1003,7 @@ def correspond(ctx):
     dis += _guard("SoCBusHandler build scripts", lambda: _glue_cases(ctx))
     dis += _guard("SoCBusHandler.check_regions_overlap", lambda: _overlap_cases(ctx))
     dis += _guard("SoCBusHandler.add_remapper", lambda: _remap_cases(ctx))
+    dis += _guard("SoCBusHandler.add_adapter converters", lambda: _width_cases(ctx))
     dis += _guard("selftest", lambda: _self_test(ctx))
     ctx.log("corpus, RoundRobin table, SoCRegion.decoder cases, self-test done; %d fabric jobs" % len(ctx.jobs))
     limit = 600 if ctx.tier == "quick" else 3000
@@ -1109,6 +1237,13 @@ def replay(ctx, payload):
             print("VIOLATION property=%s replay=(replayed)" % ctx.prop)
             return 1
         return 0
+    if (fi.get("make") or {}).get("kind") == "width_route":
+        b, m, sd, ic = fi["make"]["args"]
+        w = _width_route(b, m, tuple(sd), ic, words=[fi["byte_address"]])
+        print(w or "byte address %#x is routed correctly on the current tree" % fi["byte_address"])
+        if w:
+            print("VIOLATION property=%s replay=(replayed)" % ctx.prop)
+        return 1 if w else 0
     if (fi.get("make") or {}).get("kind") == "socglue" and "trace" not in fi:
         gb = GlueBuild(fi["make"]["script"], **fi["make"].get("kw", {}))
         print("%s -> %s" % (gb.describe(), gb.summary()))
